@@ -104,6 +104,9 @@ def check(mod, run, a):
         cfgname = ','.join('%s=%s' % kv for kv in sorted(cfg.items())) or 'default'
         for c in reg.contracts:
             if a.only and a.only not in c.name: continue
+            if getattr(c, 'tier', None) == 'thorough' and run.tier != 'thorough':
+                run.has_thorough_only = True
+                continue
             res = {}
             n0 = len(eng.obligations)
             t1 = time.time()
@@ -171,7 +174,9 @@ def check(mod, run, a):
             if r.get('violation'): extra_viol.append(r)
     # ---- verdicts
     names = sorted(set(ob_fullname(prop, ob) for ob in run.obs))
-    lockfile = os.path.join(ROOT, 'specs', 'locks', prop + '.lock')
+    # contracts marked tier='thorough' are checked in the thorough tier only: that tier has its own lock file
+    thorough_extra = any(getattr(c, 'tier', None) == 'thorough' for (_, c, _, _) in run.contracts)
+    lockfile = os.path.join(ROOT, 'specs', 'locks', prop + ('.thorough' if thorough_extra else '') + '.lock')
     if a.update_lock:
         os.makedirs(os.path.dirname(lockfile), exist_ok=True)
         open(lockfile, 'w').write('\n'.join(names) + '\n')
